@@ -156,6 +156,7 @@ class History:
         for i in range(3):
             self.add_peer()
         self.ro = sqlite3.connect("file:%s?mode=ro" % self.path, uri=True)
+        self.install_validation_window_hook()
         self.relayed = {}       # block id -> per-peer count
         self.rejected_blocks = []
         self.had_rejection = False
@@ -168,6 +169,26 @@ class History:
             if t is not None:
                 used.update(t.refs())
                 self.node.lp.chain_manager.add_transaction_to_pool(bridge.rtx_to_real(t))
+
+    def install_validation_window_hook(self):
+        """While the relay path validates a block, the chain state the node serves (what the miner thread or a peer's
+        request would see at that instant) is sampled: a block that has not passed validation yet must not be part of it.
+        This is the observation another thread could make between the two critical sections."""
+        import skepticoin.networking.remote_peer as rp
+        if not hasattr(rp, "_skv_orig_validate"):
+            rp._skv_orig_validate = rp.validate_block_in_coinstate
+        hist = self
+
+        def hooked(block, coinstate):
+            node = getattr(hist, "node", None)
+            if node is not None and not getattr(hist, "in_ibd_delivery", False):
+                hist.mon.c["validation_window_observations"] = hist.mon.c.get("validation_window_observations", 0) + 1
+                served, _pool = node.lp.chain_manager.get_state()
+                if block.hash() in served.block_by_hash:
+                    hist.window_leaks.append(block.hash())
+            return rp._skv_orig_validate(block, coinstate)
+        rp.validate_block_in_coinstate = hooked
+        self.window_leaks = []
 
     def add_peer(self):
         raw = self.net.raw_connect(self.node, src=("10.7.7.%d" % (len(self.peers) + 1), 40000 + len(self.peers)))
@@ -238,6 +259,10 @@ class History:
         if node.escaped:
             mon.v("exception-escaped-event-handler", node.escaped[0][:300], w)
             node.escaped.clear()
+        if self.window_leaks:
+            mon.v("unvalidated-block-visible-in-served-state", "class %s: while the delivered block was still being validated, the "
+                  "chain state handed out by get_state() already contained it (another thread, e.g. the miner, would build on it)" % cls, w)
+            del self.window_leaks[:]
         if known:
             c["duplicates"] += 1
             if after_cs is not before_cs and gen.fingerprint(after_cs) != gen.fingerprint(before_cs):
@@ -493,6 +518,7 @@ def replay(mon, w, classes):
     for i in range(3):
         h.add_peer()
     h.ro = sqlite3.connect("file:%s?mode=ro" % h.path, uri=True)
+    h.install_validation_window_hook()
     h.relayed, h.had_rejection, h.log = {}, False, []
     h.rejected_blocks = []
     for d, rb in zip(w["deliveries"], delivered):
@@ -509,7 +535,8 @@ def finalize(m, tier):
               ("accepted_non_head", c.get("accepted_non_head", 0), 50), ("reorg_new_heads", c.get("reorg_new_heads", 0), 10),
               ("apply_error_deliveries", c.get("apply_error_deliveries", 0), 60),
               ("valid_after_rejection_stored", c.get("valid_after_rejection_stored", 0), 200),
-              ("relays_observed", c.get("relays_observed", 0), 500)]
+              ("relays_observed", c.get("relays_observed", 0), 500),
+              ("validation_window_observations", c.get("validation_window_observations", 0), 500)]
     total = c.get("accepted", 0) + c.get("rejected", 0) + c.get("duplicates", 0)
     if total != c.get("deliveries", 0):
         m["inconclusive"].append("conservation of deliveries broken in the harness: %d != %d" % (total, c.get("deliveries", 0)))
